@@ -9,7 +9,7 @@ m = dict(
     setup_cmd="./setup.sh",
     hooks=dict(guard="HGX_VERIF", enable="none needed: contracts are sidecar files under /verif and the checks read /repo's working tree",
                baseline_off_cmd=BASE, source_commits=[], add_only=True),
-    engines=[dict(name="pyvc", path="hv/pyvc", serves_properties=["C01", "C02", "C03", "C04", "C05", "C07", "C08", "C10", "C11", "C12", "C13", "C14", "C16", "C18", "C19", "C20"],
+    engines=[dict(name="pyvc", path="hv/pyvc", serves_properties=["C01", "C02", "C03", "C04", "C05", "C07", "C08", "C09", "C10", "C11", "C12", "C13", "C14", "C16", "C18", "C19", "C20"],
                   kind_free_text="contract-based deductive verifier for a Python subset: AST of /repo's working tree -> verification conditions -> z3 (E-matching); sidecar contracts in hv/contracts"),
              dict(name="lean", path="lean", serves_properties=["C01", "C02", "C03", "C04", "C05", "C08", "C11", "C16"],
                   kind_free_text="Lean 4 / Mathlib proofs of what needs induction: the two lemmas behind the reachability-class axioms (C05, C08, C11), per-operation refinement => every history refines (C01-C04), the degree-sum identity (C08), the point-update lemma of the chain-state count (C16); re-checked by the checks that rely on them"),
